@@ -317,9 +317,9 @@ def run_case(c):
         F.append((func, pred, info))
 
     def guarded(func, f, *a):
-        st, v = call(f, *a, t=10.0)
-        if st == 'timeout':      # none of these routines loops: not returning within 10 s on a <= 10-node graph is a failure
-            out['timeouts'] += 1; fail(func, 'returns-within-budget', {'budget_s': 10.0}); return None
+        st, v = call(f, *a, t=10.0, retry=10)
+        if st == 'timeout':      # none of these routines loops: not returning within 10 s and again within 100 s on a <= 16-node graph is a failure
+            out['timeouts'] += 1; fail(func, 'returns-within-budget', {'budget_s': 100.0}); return None
         if st == 'exc':
             fail(func, 'raises', {'exception': v}); return None
         return v
@@ -432,16 +432,19 @@ def run_case(c):
                 Av = A @ v
                 # post-processing as coded on the same eig output: i = argmax(vals); abs(vecs[:, i]); oracle contract checked
                 w_, V_ = sla.eig(A)
-                if np.abs(np.imag(w_)).max() == 0 and not np.iscomplexobj(V_):
-                    wr = np.real(w_)
-                    okc = (np.abs(A @ V_ - V_ * wr[None, :]).max() <= 1e-8 * max(1.0, np.abs(wr).max())
-                           and np.abs((V_ * V_).sum(0) - 1).max() <= 1e-10
-                           and np.abs(np.sort(wr) - np.linalg.eigvalsh(A)).max() <= 1e-8 * max(1.0, np.abs(wr).max()))
+                # For a repeated non-maximal eigenvalue LAPACK may return a complex-conjugate pair (imaginary parts ~1e-16) with complex
+                # columns; the contract `EigOracle A vals vecs i` only concerns the selected column i and the list of eigenvalues.
+                i_ = int(np.argmax(w_)); wr = np.real(w_); sc = max(1.0, np.abs(wr).max())
+                if np.abs(np.imag(w_)).max() <= 1e-9 * sc and np.abs(np.imag(V_[:, i_])).max() == 0:
+                    col = np.real(V_[:, i_])
+                    okc = (np.abs(A @ col - wr[i_] * col).max() <= 1e-8 * sc and abs(col @ col - 1) <= 1e-10
+                           and np.abs(np.sort(wr) - np.linalg.eigvalsh(A)).max() <= 1e-8 * sc
+                           and i_ == int(np.argmax(wr)))
                     out['contract'].append(('eig', bool(okc)))
-                    out['lines'].append(('eigpost', 'eigpost n=%d A=%s vals=%s vecs=%s' % (n, mstr, frs(wr), frs(V_)),
-                                         {'i': int(np.argmax(w_)), 'v': v.tolist()}))
+                    out['lines'].append(('eigpost', 'eigpost n=%d A=%s vals=%s vecs=%s' % (n, mstr, frs(wr), frs(np.real(V_))),
+                                         {'i': i_, 'v': v.tolist()}))
                 else:
-                    out['contract'].append(('eig-complex-dtype', True))
+                    out['contract'].append(('eig-selected-column-not-real', False))   # the theorem's hypothesis is not met: reported as a break
                 exp = {'nrm2': float(v @ v), 'vmin': float(v.min()), 'ray': float(v @ Av / (v @ v)) if v @ v > 0 else None,
                        'lam': lam, 'conn': bool(conn)}
                 if den == 1:
